@@ -546,7 +546,7 @@ def domain_guard(chk, prog, refs=None):
     return n
 
 
-ALL = {"SIGNATURE": lambda chk, prog, files: signature(chk, prog, files), "SIGN-CANON": lambda chk, prog, files: sign_canon(chk, prog, files), "UNDEFINED-NAME": lambda chk, prog, files: possibly_undefined(chk, prog, files), "SELF-PURE": lambda chk, prog, files: self_pure(chk, prog, files), "STALE-DERIVED": lambda chk, prog, files: stale_derived(chk, prog, files), "CACHE-KEY": lambda chk, prog, files: cache_key(chk, prog, files), "NO-PARAM-WRITE": lambda chk, prog, files: no_param_write(chk, prog, files), "ZERO-AS-MISSING": lambda chk, prog, files: zero_as_missing(chk, prog, files), "POSE-DIV": lambda chk, prog, files: pose_div(chk, prog, files), "UNIT-GUARD": lambda chk, prog, files: unit_guard(chk, prog, files), "PARAM-DEAD": param_dead, "SWAPPED-ARGS": swapped_args, "METHOD-TRUTH": method_truth, "VIEW-SWAP": view_swap,
+ALL = {"LATCH": lambda chk, prog, files: latch(chk, prog, files), "SIGNATURE": lambda chk, prog, files: signature(chk, prog, files), "SIGN-CANON": lambda chk, prog, files: sign_canon(chk, prog, files), "UNDEFINED-NAME": lambda chk, prog, files: possibly_undefined(chk, prog, files), "SELF-PURE": lambda chk, prog, files: self_pure(chk, prog, files), "STALE-DERIVED": lambda chk, prog, files: stale_derived(chk, prog, files), "CACHE-KEY": lambda chk, prog, files: cache_key(chk, prog, files), "NO-PARAM-WRITE": lambda chk, prog, files: no_param_write(chk, prog, files), "ZERO-AS-MISSING": lambda chk, prog, files: zero_as_missing(chk, prog, files), "POSE-DIV": lambda chk, prog, files: pose_div(chk, prog, files), "UNIT-GUARD": lambda chk, prog, files: unit_guard(chk, prog, files), "PARAM-DEAD": param_dead, "SWAPPED-ARGS": swapped_args, "METHOD-TRUTH": method_truth, "VIEW-SWAP": view_swap,
        "MODULE-STATE": module_state, "SHADOW-REBIND": shadow_rebind, "CASE-MIXED": case_mixed, "INT-ALLOC": int_alloc}
 
 
@@ -569,6 +569,10 @@ class _LintFixture(_np.ndarray):
         return obj
     def is_ok(self):
         return True
+    def latched(self, sample):
+        if self.ref is None:
+            self.ref = sample * 2
+        return self.ref
     def derive(self, v):
         self.vec = [self.mode, v]
         self.mode = v
@@ -620,7 +624,7 @@ def _lint_fixture_alloc(p):
 '''
 FIXTURE_HOST = "ahrs/common/frames.py"
 # rule -> properties that own it (None = every property, on its anchor files)
-OWNERS = {"SIGNATURE": None, "SIGN-CANON": None, "UNDEFINED-NAME": None, "SELF-PURE": {"C01", "C02", "C07", "C09", "C10", "C11", "C12", "C18", "C20"}, "STALE-DERIVED": None, "CACHE-KEY": None, "NO-PARAM-WRITE": {"C01", "C02", "C03", "C04", "C06", "C07", "C09", "C10", "C12", "C13", "C18", "C20"}, "ZERO-AS-MISSING": None, "POSE-DIV": {"C03", "C04", "C05", "C13", "C02", "C07"}, "UNIT-GUARD": None, "PARAM-DEAD": None, "SWAPPED-ARGS": None, "METHOD-TRUTH": None, "VIEW-SWAP": None, "INT-ALLOC": None, "CASE-MIXED": None,
+OWNERS = {"LATCH": None, "SIGNATURE": None, "SIGN-CANON": None, "UNDEFINED-NAME": None, "SELF-PURE": {"C01", "C02", "C07", "C09", "C10", "C11", "C12", "C18", "C20"}, "STALE-DERIVED": None, "CACHE-KEY": None, "NO-PARAM-WRITE": {"C01", "C02", "C03", "C04", "C06", "C07", "C09", "C10", "C12", "C13", "C18", "C20"}, "ZERO-AS-MISSING": None, "POSE-DIV": {"C03", "C04", "C05", "C13", "C02", "C07"}, "UNIT-GUARD": None, "PARAM-DEAD": None, "SWAPPED-ARGS": None, "METHOD-TRUTH": None, "VIEW-SWAP": None, "INT-ALLOC": None, "CASE-MIXED": None,
           "SHADOW-REBIND": None,
           # process-wide hidden state only contradicts properties that promise repeatability / isolation / history independence
           "MODULE-STATE": {"C06", "C15", "C19"}}
@@ -1365,4 +1369,48 @@ def signature(chk, prog, files):
                             "%s: existing positional calls now bind their argument to a different parameter or get a different default" % what, line=f.node.lineno)
                 break
     chk.counts["SIGNATURE.callables"] = chk.counts.get("SIGNATURE.callables", 0) + n
+    return n
+
+
+# ----------------------------------------------------------------------------------------------------------------- LATCH
+def latch(chk, prog, files):
+    """`if self.X is None: self.X = <value computed from this call's arguments>` in a method other than the constructor: the first call latches a value that
+    depends on ITS arguments and every later call -- with other arguments -- reuses it.  What a call returns then depends on the calls made before it
+    (a lazily built table that depends on configuration only is fine and is not reported)."""
+    n = 0
+    for f in _funcs(prog, files):
+        if f.cls is None or f.name in ("__init__", "__new__", "__array_finalize__"):
+            continue
+        params = _params(f)
+        if not params:
+            continue
+        taint = None
+        for node in ast.walk(f.node):
+            if not isinstance(node, ast.If):
+                continue
+            t = node.test
+            attr = None
+            if isinstance(t, ast.Compare) and len(t.ops) == 1 and isinstance(t.ops[0], ast.Is) and isinstance(t.comparators[0], ast.Constant) and t.comparators[0].value is None:
+                l = t.left
+                if isinstance(l, ast.Attribute) and isinstance(l.value, ast.Name) and l.value.id == "self":
+                    attr = l.attr
+                elif isinstance(l, ast.Call) and isinstance(l.func, ast.Name) and l.func.id == "getattr" and len(l.args) >= 2 and isinstance(l.args[1], ast.Constant):
+                    attr = l.args[1].value
+            elif isinstance(t, ast.UnaryOp) and isinstance(t.op, ast.Not) and isinstance(t.operand, ast.Call) and ast.unparse(t.operand.func) == "hasattr" \
+                    and len(t.operand.args) == 2 and isinstance(t.operand.args[1], ast.Constant):
+                attr = t.operand.args[1].value
+            if attr is None:
+                continue
+            for s in ast.walk(node):
+                if isinstance(s, ast.Assign) and any(isinstance(tg, ast.Attribute) and isinstance(tg.value, ast.Name) and tg.value.id == "self" and tg.attr == attr for tg in s.targets):
+                    n += 1
+                    if taint is None:
+                        taint = _tainted_by_params(f.node, params)
+                    dep = sorted({p for p in params for x in ast.walk(s.value)
+                                  if (isinstance(x, ast.Name) and x.id in _tainted_by_params(f.node, [p]))})
+                    if dep:
+                        chk.finding("LATCH", f.module.rel, f.qname, "self.%s latched on first use" % attr,
+                                    "`self.%s` is computed from this call's arguments (%s) only while it is still None and reused ever after: later calls with other arguments "
+                                    "get the value of the first call, so a result depends on the call history" % (attr, ", ".join(dep)), line=s.lineno)
+    chk.counts["LATCH.sites"] = chk.counts.get("LATCH.sites", 0) + n
     return n
